@@ -98,6 +98,10 @@ func c20Single(c *C20Case) Verdict {
 		}
 		// gap > w is admissible ("at least w"): e.g. a back-off policy
 	}
+	if deadline >= 0 && w < time.Millisecond {
+		// cancellation during a sub-millisecond wait is below the quantified range (1 ms .. 1 h)
+		return ok(false, "single", "sub-ms-wait")
+	}
 	if deadline >= 0 {
 		// where did the deadline fall on THIS run's timeline?
 		j := -1
@@ -175,6 +179,9 @@ func c20Batch(c *C20Case) Verdict {
 		if sc.DeadlineMs > 0 {
 			dl := time.Duration(sc.DeadlineMs) * time.Millisecond
 			for _, e := range execs {
+				if e.Attempt == 0 || w < time.Millisecond {
+					continue // whether an item is still STARTED after the deadline is C11's clause
+				}
 				if e.Start > dl {
 					return bad("C20:item-attempt-after-cancel", "item %d attempt %d started at %v, after the deadline %v", i, e.Attempt, e.Start, dl)
 				}
@@ -223,7 +230,7 @@ func checkC20(t *testing.T, c C20Case) Verdict {
 			v = c20Batch(&c)
 		}
 	})
-	if f != "" && !(c.Batch != nil && goroutinesRemain(f)) {
+	if f != "" && !goroutinesRemain(f) {
 		return bad("C20:bubble", "%s", f)
 	}
 	return v
